@@ -9,6 +9,8 @@ LEVEL = {}
 PLAN = {
     "C01": {"steps": [codec()]},
     "C08": {"steps": [codec()]},
+    "C10": {"steps": [codec()]},
+    "C12": {"steps": [codec()]},
 }
 for k in PLAN:
     LEVEL.setdefault(k, "exploration")
